@@ -79,6 +79,20 @@ Theorem C12_numeric_key_hex_order : forall a b,
 Proof. exact hex_key_order. Qed.
 Print Assumptions C12_numeric_key_hex_order.
 
+(* all signs at once: for canonical binary64 numbers (zero, or |m| < 2^53 with a normal exponent) the 64-bit key,
+   and hence the 16-digit text key the sorter uses, orders exactly like the numbers m * 2^e *)
+Theorem C12_numeric_key_order : forall m e m' e' S,
+  canon m e -> canon m' e' -> scale_ok S m e -> scale_ok S m' e' -> S <= e -> S <= e' ->
+  (m * 2 ^ (e - S) < m' * 2 ^ (e' - S) <-> num_key m e < num_key m' e').
+Proof. exact num_key_order_all. Qed.
+Print Assumptions C12_numeric_key_order.
+
+Theorem C12_numeric_text_key_order : forall m e m' e' S,
+  canon m e -> canon m' e' -> scale_ok S m e -> scale_ok S m' e' -> S <= e -> S <= e' ->
+  (str_ltb (hexw 16 (num_key m e)) (hexw 16 (num_key m' e')) = true <-> m * 2 ^ (e - S) < m' * 2 ^ (e' - S)).
+Proof. exact numeric_text_key_order. Qed.
+Print Assumptions C12_numeric_text_key_order.
+
 (* premises are satisfiable: 2.5 < 3 (5*2^-1 vs 3*2^0, scale -52) *)
 Example C12_numeric_nonvacuous : num_key 5 (-1) < num_key 3 0 /\ num_key (-3) 0 < num_key (-5) (-1).
 Proof. vm_compute. split; reflexivity. Qed.
